@@ -237,7 +237,9 @@ fn run_case(w: &mut World, c: &Value, ctl: &mut Ctl) -> Value {
 		let base = if nin >= 2 { el[0..nin - 1].iter().map(|x| x.1).sum::<u64>() + 1000 } else { 1000 };
 		let change = if incfee { total - base } else { total - base - fee_change };
 		// an invoice whose amount is altered on the way shifts the payer's change by one unit
-		let shift: u64 = if invoice && class == "pre_amt_plus" { 1 } else if invoice && class == "pre_amt_minus" { nch - 1 } else { 0 };
+		let up = ["pre_amt_plus", "cc_amt_plus", "cc_both_rev"].contains(&class.as_str());
+		let down = ["pre_amt_minus", "cc_amt_minus", "cc_both"].contains(&class.as_str());
+		let shift: u64 = if invoice && up { 1 } else if invoice && down { nch - 1 } else { 0 };
 		base + ((change + nch - shift % nch) % nch)
 	};
 
@@ -251,7 +253,11 @@ fn run_case(w: &mut World, c: &Value, ctl: &mut Ctl) -> Value {
 		stale_sig: ctl.stale_sig,
 		tip,
 		unit: U,
+		fwd: None,
+		invoice,
 	};
+	// consistent counterparty: the request is altered AND the reply comes back non-compact (echo)
+	let is_cc = stage == "pre" && class.starts_with("cc_");
 	let mut pre_wire = true;
 	let reply_stage = if invoice { "I2" } else { "S2" };
 	let mut agreed = json!({});
@@ -294,6 +300,7 @@ fn run_case(w: &mut World, c: &Value, ctl: &mut Ctl) -> Value {
 		} else {
 			None
 		};
+		env.fwd = Some((v1.amt, v1.fee));
 		let r = w.receive(payee, &name, "", fwd);
 		steps.push(json!({"receive": r["res"], "detail": r["detail"]}));
 		if r["res"] != "ok" {
@@ -335,6 +342,7 @@ fn run_case(w: &mut World, c: &Value, ctl: &mut Ctl) -> Value {
 		} else {
 			None
 		};
+		env.fwd = Some((v1.amt, v1.fee));
 		let pa = json!({"minconf": 1, "nchange": nout});
 		let p = w.process_invoice(payer, &name, &pa, fwd);
 		steps.push(json!({"process_invoice": p["res"], "detail": p["detail"]}));
@@ -386,8 +394,14 @@ fn run_case(w: &mut World, c: &Value, ctl: &mut Ctl) -> Value {
 		other = Some(on);
 	}
 	let mut post_wire = true;
-	let delivered = if stage == "post" || class2 != "none" {
-		let first = if stage == "post" { tamper::apply(&class, &mut v2, &env) } else { Ok(()) };
+	let delivered = if stage == "post" || class2 != "none" || is_cc {
+		let first = if stage == "post" {
+			tamper::apply(&class, &mut v2, &env)
+		} else if is_cc {
+			tamper::apply("echo", &mut v2, &env)
+		} else {
+			Ok(())
+		};
 		let both = first.and_then(|_| if class2 != "none" { tamper::apply(&class2, &mut v2, &env) } else { Ok(()) });
 		if let Err(e) = both {
 			ev["run"] = json!(format!("skip:tamper:{}", e));
